@@ -12,7 +12,7 @@ def run(cases, tag="tmp", spec="TraceExact", real=False, f32=False, quiet=False)
     P.write_programs(prog, cases)
     exe = P.build_executor(f32)
     P.run_executor(exe, prog, ev, real=real)
-    res = P.validate(spec, ev, wd)
+    res = P.validate(spec, ev, wd, f32=f32)
     if not quiet:
         print(res["summary"])
         print(collections.Counter((m["op"], m["why"]) for m in res["mismatches"]).most_common(25))
